@@ -17,9 +17,14 @@ def mk_dataset(rng, kind=None, maxn=40):
     y = base + rng.normal(size=n) * 0.3
     if rng.random() < 0.06:
         y[0] = float(rng.choice([3e12, -8e13, 5e14]))   # direct-beam leakage / a small-angle upturn in the lowest bin: a number like any other
+    int_y = bool(rng.random() < 0.06)
+    if int_y:
+        y = np.rint(y * 4)          # whole-number ordinates (counts), handed over in integer arrays: the same numbers
     info = {"x": [float(v) for v in q], "y": [float(v) for v in y], "ReciprocalFunction": kind}
+    if int_y:
+        info["int_y"] = True
     if rng.random() < 0.8:
-        info["dy"] = [float(v) for v in rng.uniform(0, 0.05, n)]
+        info["dy"] = [float(v) for v in (rng.integers(0, 4, n) if int_y else rng.uniform(0, 0.05, n))]
     if rng.random() < 0.6:
         info["Qmin"] = float(np.round(q[int(rng.integers(0, max(n // 2, 1)))], 2))
     if rng.random() < 0.6:
@@ -104,10 +109,11 @@ def edge_window(rng, ds):
 
 def to_info(d):
     """the dict handed to StoG.add_dataset (fresh arrays every time: add_dataset stores into the dict)"""
-    info = {k: copy.deepcopy(v) for k, v in d.items() if k not in ("x", "y", "dy", "unsorted")}
-    data = [np.array(d["x"], dtype=float), np.array(d["y"], dtype=float)]
+    info = {k: copy.deepcopy(v) for k, v in d.items() if k not in ("x", "y", "dy", "unsorted", "int_y")}
+    vt = np.int64 if d.get("int_y") else float
+    data = [np.array(d["x"], dtype=float), np.array(d["y"], dtype=float).astype(vt)]
     if "dy" in d:
-        data.append(np.array(d["dy"], dtype=float))
+        data.append(np.array(d["dy"], dtype=float).astype(vt))
     info["data"] = data
     return info
 
